@@ -268,7 +268,22 @@ func kindsTable(c *Ctx) {
 	}
 	pos := prog.Pos(fn.Pos())
 	sig := fn.Type().(*types.Signature)
-	for _, tc := range kindCases() {
+	cases := kindCases()
+	if c.Tier == "thorough" {
+		// every case once more inside each unary constructor and as the value of a map: the walk is transitive
+		base := kindCases()
+		for _, wrap := range []string{"*go/types.Slice", "*go/types.Pointer", "*go/types.Chan", "*go/types.Array"} {
+			for _, tc := range base {
+				cases = append(cases, kcase{desc: strings.TrimPrefix(wrap, "*go/types.") + " of " + tc.desc, t: kElem(wrap, tc.t), want: tc.want})
+			}
+		}
+		for _, tc := range base {
+			key := kLeaf("kz")
+			cases = append(cases, kcase{desc: "map[kz.T] of " + tc.desc, t: &interp.Opaque{Kind: "types.Type", ID: "mapwrap(" + tc.t.ID + ")", GoType: "*go/types.Map", Methods: mmap{"Key": tmeth(key), "Elem": tmeth(tc.t)}}, want: append([]string{kpath("kz")}, tc.want...)})
+			cases = append(cases, kcase{desc: "func() of " + tc.desc, t: kSig("sigwrap("+tc.t.ID+")", nil, []ktype{tc.t}), want: tc.want})
+		}
+	}
+	for _, tc := range cases {
 		w, err := newRegWorld(prog, nil, "")
 		if err != nil {
 			run.Undecided("G-KINDS/table", tc.desc, pos, "the registry cannot be built: "+err.Error())
